@@ -136,42 +136,56 @@ def rate(ctx, P, view):
     for x in ast.walk(fn):
         if isinstance(x, ast.Assign) and len(x.targets) == 1:
             asg.setdefault(unparse(x.targets[0]), []).append(x)
-    aug = [x for x in ast.walk(fn) if isinstance(x, ast.AugAssign)]
-
-    def one(name):
-        v = asg.get(name, [])
-        return v[0].value if len(v) >= 1 else None
     problems = []
     loops = [x for x in ast.walk(fn) if isinstance(x, ast.For)]
     var = unparse(loops[0].target) if loops else "ind"
-    # period
-    per = one("current_period")
-    if per is None or unparse(per).replace(" ", "") != "self.simulation.current_time-%s.date_last_update" % var:
+    # roles are found by data flow, not by name
+    share = None          # the local subtracted from time_left
+    for x in ast.walk(fn):
+        if isinstance(x, ast.AugAssign) and unparse(x.target) == var + ".time_left" and isinstance(x.op, ast.Sub) and isinstance(x.value, ast.Name):
+            share = x.value.id
+        if isinstance(x, ast.Assign) and unparse(x.targets[0]) == var + ".time_left" and isinstance(x.value, ast.BinOp) and isinstance(x.value.op, ast.Sub) \
+                and unparse(x.value.left) == var + ".time_left" and isinstance(x.value.right, ast.Name):
+            share = x.value.right.id
+    if share is None:
+        problems.append(("time-left", "time_left must be reduced by exactly the credited work"))
+    period = [k for k, v in asg.items() if len(v) == 1 and unparse(v[0].value).replace(" ", "") == "self.simulation.current_time-%s.date_last_update" % var]
+    if len(period) != 1:
         problems.append(("period", "the elapsed period must be now - ind.date_last_update"))
+    nxt = [k for k, v in asg.items() if len(v) == 1 and unparse(v[0].value).replace(" ", "") in ("min(self.number_of_individuals,self.ps_capacity)", "min(self.ps_capacity,self.number_of_individuals)")]
+    if len(nxt) != 1:
+        problems.append(("occupancy", "the sharing level is min(population, ps_capacity)"))
+    period, nxt = (period[0] if period else "?"), (nxt[0] if nxt else "?")
     # progress
-    shares = [x.value for x in asg.get("share_completed", [])]
-    prog = [s for s in shares if not isinstance(s, ast.Constant)]
-    zero = [s for s in shares if isinstance(s, ast.Constant) and s.value == 0]
+    shares = [x.value for x in asg.get(share or "?", [])]
+    prog = [v for v in shares if not isinstance(v, ast.Constant)]
+    zero = [v for v in shares if isinstance(v, ast.Constant) and v.value == 0]
     rate_num = rate_den = None
     if len(prog) != 1:
         problems.append(("progress", "credited work expression not found"))
     else:
         num, den = _factors(prog[0])
-        if "current_period" not in num:
+        if period not in num:
             problems.append(("progress", "credited work must be proportional to the elapsed period"))
         else:
-            num.remove("current_period")
+            num.remove(period)
             rate_num, rate_den = _cancel(num, den)
-        p = prog[0]
+        # credited iff last_occupancy > 0 (else 0): semantic test of the enclosing branch
+        p, child = prog[0], prog[0]
         while p is not fn and not isinstance(p, ast.If):
-            p = p._parent
-        if not (isinstance(p, ast.If) and guards.norm(p.test, unparse) == ("lt", "0", "self.last_occupancy") and zero):
+            child, p = p, p._parent
+        okg = False
+        if isinstance(p, ast.If) and zero:
+            f = guards.norm(p.test, unparse)
+            facts = {}
+            in_body = any(child is y or any(child is z for z in ast.walk(y)) for y in p.body)
+            guards.assume(f, in_body, facts)
+            okg = facts.get(("lt", "0", "self.last_occupancy")) is True
+        if not okg:
             problems.append(("progress-guard", "work is credited iff last_occupancy > 0 (else 0)"))
-    # time_left -= share
-    if not any(unparse(a.target) == var + ".time_left" and isinstance(a.op, ast.Sub) and unparse(a.value) == "share_completed" for a in aug):
-        problems.append(("time-left", "time_left must be reduced by exactly the credited work"))
     # projection
-    end = one(var + ".service_end_date")
+    ends = asg.get(var + ".service_end_date", [])
+    end = ends[0].value if ends else None
     proj_num = proj_den = None
     if not (isinstance(end, ast.BinOp) and isinstance(end.op, ast.Add) and unparse(end.left) == "self.simulation.current_time"):
         problems.append(("projection", "service_end_date must be now + projected remaining duration"))
@@ -183,30 +197,38 @@ def rate(ctx, P, view):
             num.remove(var + ".time_left")
             proj_num, proj_den = _cancel(num, den)
     if rate_num is not None and proj_num is not None:
-        ren = lambda fs: sorted(f.replace("next_occupancy", "K").replace("self.last_occupancy", "K") for f in fs)
-        ob.ok("rate=%s/%s" % (rate_num, rate_den), "rate = %s / %s ; projection factor = %s / %s" % (rate_num, rate_den, proj_num, proj_den))
+        ren = lambda fs: sorted(f.replace(nxt, "K").replace("self.last_occupancy", "K") for f in fs)
+        ob.ok("rate=%s/%s" % (ren(rate_num), ren(rate_den)), "rate = %s / %s ; projection factor = %s / %s" % (rate_num, rate_den, proj_num, proj_den))
         if ren(rate_num) != ren(proj_den) or ren(rate_den) != ren(proj_num):
             problems.append(("rate-mismatch", "progress rate %s/%s and projection factor %s/%s are not inverse to each other: work credited and work projected disagree" % (rate_num, rate_den, proj_num, proj_den)))
         want_num, want_den = ["self.ps_threshold"], ["max(K,self.ps_threshold)"]
         if ren(rate_num) != want_num or ren(rate_den) != want_den:
             problems.append(("rate-form", "the service rate must be threshold / max(k, threshold) (= min(1, threshold / k)); found %s / %s" % (rate_num, rate_den)))
-        if not any("self.last_occupancy" in f for f in rate_den) or not any("next_occupancy" in f for f in proj_num):
-            problems.append(("occupancy-roles", "work for the elapsed period uses the occupancy of that period (last_occupancy); the projection uses the new one (next_occupancy)"))
-    # occupancies
-    nxt = one("next_occupancy")
-    if nxt is None or unparse(nxt).replace(" ", "") not in ("min(self.number_of_individuals,self.ps_capacity)", "min(self.ps_capacity,self.number_of_individuals)"):
-        problems.append(("occupancy", "the sharing level is min(population, ps_capacity)"))
+        if not any("self.last_occupancy" in f for f in rate_den) or not any(nxt in f for f in proj_num):
+            problems.append(("occupancy-roles", "work for the elapsed period uses the occupancy of that period (last_occupancy); the projection uses the new one"))
     lo = asg.get("self.last_occupancy", [])
-    if not lo or unparse(lo[-1].value) != "next_occupancy" or isinstance(lo[-1]._parent, ast.For):
-        problems.append(("occupancy-advance", "last_occupancy must become next_occupancy after all customers were updated"))
+    if not lo or unparse(lo[-1].value) != nxt or any(isinstance(a, ast.For) for a in _ancestors(lo[-1], fn)):
+        problems.append(("occupancy-advance", "last_occupancy must become the new occupancy after all customers were updated"))
     dl = asg.get(var + ".date_last_update", [])
     if not dl or unparse(dl[0].value) != "self.simulation.current_time":
         problems.append(("period-advance", "each customer's date_last_update must be set to now"))
     # only customers with_server
-    comp = one("inds_in_service")
-    if not (isinstance(comp, ast.ListComp) and unparse(comp.generators[0].iter) == "self.all_individuals" and [unparse(c) for c in comp.generators[0].ifs] == ["%s.with_server" % unparse(comp.generators[0].target)]
-            and loops and unparse(loops[0].iter) == "inds_in_service"):
+    okf = False
+    if loops:
+        src = loops[0].iter
+        comp = src if isinstance(src, ast.ListComp) else (asg.get(unparse(src), [None])[0].value if asg.get(unparse(src)) else None)
+        if isinstance(comp, ast.ListComp) and len(comp.generators) == 1:
+            g = comp.generators[0]
+            okf = unparse(g.iter) == "self.all_individuals" and unparse(comp.elt) == unparse(g.target) and len(g.ifs) == 1 and guards.norm(g.ifs[0], unparse) == ("truth", "%s.with_server" % unparse(g.target))
+    if not okf:
         problems.append(("in-service-filter", "exactly the customers flagged with_server share the server"))
     ob.ok("bookkeeping")
     for reason, msg in problems:
         ctx.violation(ob, "R5.ps-rate", "PSNode.update_all_service_end_dates", reason, reason, msg, loc(fn))
+
+
+def _ancestors(n, stop):
+    p = getattr(n, "_parent", None)
+    while p is not None and p is not stop:
+        yield p
+        p = getattr(p, "_parent", None)
